@@ -739,10 +739,39 @@ def run_sched_engine(ctx, spec):
                 org = origin[k] if k < len(origin) else "?"
                 if ctx.pid in ("C10", "C18", "C09", "C02"):
                     sc, cs, ch, choices = org.split(":", 3)
+                    # the scheduler learns "blocked" from a grace period: on a loaded machine a slow thread can
+                    # be taken for a blocked one and the recorded trace is then not what happened.  A schedule
+                    # is a list of choices at yield points, so a real protocol violation replays; one that does
+                    # not reproduce in two replays of its own schedule is timing and is noted, not reported.
+                    if len(seen) > 8:
+                        break
+                    if not ctx.replay and not _latch_reproduces(sc, int(cs), json.loads(choices.replace(" ", ",")), out):
+                        ctx.notes.append(f"a latch-protocol mismatch ({sc} cfg {cs}) did not reproduce in two replays of its schedule: blocked-thread detection by timing, not reported")
+                        continue
                     ctx.violation("latch", f"a thread got past a latch acquisition the protocol forbids (event {i} of the {ch} trace of {sc} cfg {cs})",
                                   data={"engine": "sched", "scenario": sc, "cfg_seed": int(cs), "choices": json.loads(choices.replace(" ", ","))})
                 else:
                     ctx.other.append({"concerns": ["C10", "C18"], "what": "latch protocol mismatch", "origin": org[:120]})
+
+
+def _latch_reproduces(scenario, cfg_seed, choices, out):
+    for attempt in range(2):
+        o2 = os.path.join(out, f"confirm_{cfg_seed}_{attempt}")
+        if os.path.exists(o2):
+            shutil.rmtree(o2)
+        try:
+            vlib.sh([os.path.join(CACHE, "harness"), "sched", "--out", o2, "--replay", f"{scenario}:{cfg_seed}:{','.join(map(str, choices))}"], timeout=600)
+            s2 = json.load(open(os.path.join(o2, "summary.json")))
+        except Exception:
+            return True      # cannot tell: keep the report
+        if s2.get("violations"):
+            return True
+        for tf in s2.get("trace_files") or []:
+            p = subprocess.run(["timeout", "600", "coqc", "-Q", COQ, "ColumnV", tf], cwd=o2, stdout=subprocess.PIPE, stderr=subprocess.STDOUT, text=True, preexec_fn=vlib.big_stack)
+            m = re.search(r"M\s*=\s*(.*?)\n\s*:\s*list", p.stdout, re.S)
+            if p.returncode != 0 or not m or re.search(r"\(\d+%N,\s*\d+%N\)", m.group(1)):
+                return True
+    return False
 
 
 def run_persist_engine(ctx, spec):
